@@ -63,12 +63,17 @@ func (fm *FileHandleMap) Allocate(f absfs.File) uint64 {
 		// Find the lowest handle numbers (oldest) to evict
 		minHandle := uint64(math.MaxUint64)
 		for h := range fm.handles {
-			if h < minHandle {
+			if h < minHandle && h != handle {
 				minHandle = h
 			}
 		}
-		// Evict starting from the lowest handles
+		// Evict starting from the lowest handles. The handle being returned is
+		// never a victim: a reused low id would otherwise be evicted by the very
+		// call that issued it, and the caller would receive a dead handle.
 		for h := minHandle; evictCount > 0; h++ {
+			if h == handle {
+				continue
+			}
 			if file, exists := fm.handles[h]; exists {
 				// Clean up path mapping for evicted entries
 				if node, ok := file.(*NFSNode); ok {
